@@ -39,6 +39,8 @@ func runC04(e *Env) {
 	r.Rule("C04.R7", "paths+flows", "transfers start at offset 0", 3)
 	r.Rule("C04.R8", "flows", "caches keyed by the token hash", 6)
 	r.Rule("C04.R9", "flows", "next download block from bytes held", 1)
+	r.Rule("C04.R10", "flows", "messages built to continue a transfer inherit the complete option list of their template; the block size and timeout settings reach the engine", 9)
+	r.Rule("C04.R11", "paths", "an expired (abandoned) transfer's state is never matched by a new exchange", 4)
 	prm := e.fn("C04.R1", bw+".processReceivedMessage")
 	if prm != nil {
 		c04Reassembly(e, prm)
@@ -133,6 +135,63 @@ func runC04(e *Env) {
 	}
 	if e.want("C04.R8") {
 		c04Keys(e)
+	}
+	if e.want("C04.R10") {
+		c04InheritOptions(e)
+		for _, fn := range []string{"udp/server.Server.getOrCreateConn", "dtls/server.Server.createConn", "tcp/server.Server.createConn"} {
+			checkConfigCopy(e, "C04.R10", fn, []string{"BlockwiseSZX"})
+		}
+	}
+	if e.want("C04.R11") {
+		// same obligation as C14.R5: Cache.LoadOrStore / Load hide an entry whose deadline has passed
+		sub := *e
+		checkExpiryPredicateAs(&sub, "C04.R11")
+	}
+}
+
+// c04InheritOptions: each function that builds a message for the next step of a transfer (next block request, continuation of a
+// response, re-issued GET for a block-wise notification) copies the whole option list of its template with ResetOptionsTo and only
+// then edits the block options. A filtered copy makes later blocks address another representation than block 0.
+func c04InheritOptions(e *Env) {
+	rule := "C04.R10"
+	for _, fn := range []string{
+		"net/blockwise.BlockWise.cloneMessage", "net/blockwise.newWriteRequestResponse", "net/blockwise.BlockWise.createSendingMessage",
+		"net/blockwise.BlockWise.getSentRequest", "net/blockwise.BlockWise.getCachedReceivedMessage", "net/blockwise.BlockWise.processReceivedMessage",
+		"net/observation.Handler.GetObservationRequest", "udp/server.Server.getOrCreateConn",
+	} {
+		f := e.fn(rule, fn)
+		if f == nil {
+			continue
+		}
+		var calls []ssa.CallInstruction
+		var walk func(g *ssa.Function, d int)
+		walk = func(g *ssa.Function, d int) {
+			calls = append(calls, core.Calls(g, func(n string, _ ssa.CallInstruction) bool { return strings.HasSuffix(n, "pool.Message.ResetOptionsTo") })...)
+			if d < 3 {
+				for _, a := range g.AnonFuncs {
+					walk(a, d+1)
+				}
+			}
+		}
+		walk(f, 0)
+		ok := false
+		why := "no ResetOptionsTo(template options) any more: the options of the template are copied selectively or not at all"
+		for _, c := range calls {
+			arg := core.Resolve(core.Unwrap(core.Arg(c, 1)))
+			switch x := arg.(type) {
+			case *ssa.Call:
+				if strings.HasSuffix(core.CalleeName(x), "pool.Message.Options") {
+					ok = true
+				}
+			case *ssa.UnOp:
+				if _, fl, isF := core.FieldOf(x.X); isF && fl == "Options" {
+					ok = true
+				}
+			default:
+				why = "ResetOptionsTo is given something other than the template's complete option list"
+			}
+		}
+		e.R.Check(ok, rule, fn+":inherits-options", e.fpos(f), "ResetOptionsTo(<template>.Options())", why)
 	}
 }
 
